@@ -33,6 +33,8 @@ var (
 		// one host under several schemes and ports, greater scheme first / last
 		{oPat(PatSpec{Scheme: "https", Host: "localhost", Port: 8443}, false, false), oPat(PatSpec{Scheme: "http", Host: "localhost", Port: 3000}, false, false), oPat(PatSpec{Scheme: "https", Host: "example.com"}, false, false)},
 		{oPat(PatSpec{Scheme: "http", Host: "localhost", Port: 3000}, false, false), oPat(PatSpec{Scheme: "https", Host: "localhost"}, false, false), oPat(PatSpec{Scheme: "connector", Host: "localhost", Port: portAny}, false, false)},
+		// loopback addresses other than 127.0.0.1 (the whole 127.0.0.0/8 block is loopback) next to port 65535
+		{oPat(PatSpec{Scheme: "http", Host: "127.8.9.10", Port: portAny}, false, false), oPat(PatSpec{Scheme: "http", Host: "127.0.0.2"}, false, false), oPat(PatSpec{Scheme: "http", Host: "127.0.0.1", Port: 3000}, false, false), oPat(PatSpec{Scheme: "https", Host: "example.com", Port: 65535}, false, false)},
 	}
 	prodMethods = [][]MAtom{
 		nil, {mStarAtom}, {mv("PUT")}, {mv("put")}, {mv("patch")}, {mv("PATCH"), mv("DELETE")}, {mStarAtom, mv("PUT")},
@@ -95,6 +97,9 @@ var (
 		{Scheme: "https", Host: "a.example.com", Port: 1},
 		{Scheme: "https", Host: "b.a.example.com", Port: 65535},
 		{Scheme: "http", Host: "localhost", Port: 65535},
+		{Scheme: "http", Host: "127.0.0.1", Port: 3000}, // loopback addresses other than the usual one
+		{Scheme: "http", Host: "127.8.9.10", Port: 8080},
+		{Scheme: "http", Host: "127.0.0.2"},
 		// near-misses and unrelated
 		{Scheme: "https", Host: "aexample.com"},
 		{Scheme: "http", Host: "example.com"},
